@@ -332,7 +332,14 @@ def model_call(c):
 
 def opts_of(o):
     """JSON opts → dict for the real call (inf is spelled as a large integer in JSON)"""
-    return None if o is None else dict(o)
+    if o is None:
+        return None
+    out = {}
+    for k, v in o.items():
+        if isinstance(v, dict):   # per-sector limits {"@t": [[charge, value], ...]} → {tuple(charge): value}
+            v = {tuple(t): x for t, x in v.get("@t", [])}
+        out[k] = v
+    return out
 
 
 def real_call(psi, c):
@@ -363,8 +370,12 @@ def is_binding(o):
     """opts that may discard non-negligible Schmidt values"""
     if o is None:
         return False
-    return (o.get("D_total", BIG) < BIG or o.get("D_block", BIG) < BIG or o.get("tol", 0) > 1e-13
-            or o.get("tol_block", 0) > 1e-13)
+    Db, tb = o.get("D_block", BIG), o.get("tol_block", 0)
+    if isinstance(Db, dict):     # a dictionary of block limits drops every sector it does not list
+        return True
+    if isinstance(tb, dict):     # a dictionary of block tolerances leaves the sectors it does not list untouched
+        tb = max([x for _, x in tb.get("@t", [])] + [0])
+    return o.get("D_total", BIG) < BIG or Db < BIG or o.get("tol", 0) > 1e-13 or tb > 1e-13
 
 
 def keys_of(psi):
@@ -608,9 +619,16 @@ def report_diag_twice(ctx, case, i, e):
         ctx.notes.append("candidate defect (not flagged because it is not listed in known_findings.json): " + what)
 
 
-NONBINDING = [{}, {"D_total": BIG}, {"tol": 0}, {"D_total": BIG, "tol": 1e-15}, {"D_block": BIG, "tol_block": 0}]
+_TS = [[0], [1], [-1], [2], [0, 0], [1, 0], [0, 1], [1, 1], [0, 0, 0], [1, 0, 1], [0, 1, 1], [1, 1, 0]]   # sector charges (any NSYM)
+NONBINDING = [{}, {"D_total": BIG}, {"tol": 0}, {"D_total": BIG, "tol": 1e-15}, {"D_block": BIG, "tol_block": 0},
+              # per-sector tolerances given as a dictionary (sectors not listed: tolerance 0); D_block stays a number
+              {"tol_block": {"@t": []}}, {"tol_block": {"@t": [[t, 0.0] for t in _TS]}, "D_total": BIG},
+              {"tol_block": {"@t": [[t, 1e-15] for t in _TS[::2]]}, "D_block": BIG}]
 BINDING = [{"D_total": 1}, {"D_total": 2}, {"D_total": 3}, {"tol": 0.3}, {"tol": 0.05, "D_total": 4}, {"D_block": 1},
-           {"tol_block": 0.2}]
+           {"tol_block": 0.2},
+           {"tol_block": {"@t": [[t, 0.2] for t in _TS[::2]]}}, {"tol_block": {"@t": [[t, 0.3] for t in _TS]}, "D_block": 2},
+           {"D_block": {"@t": [[t, 1 + (i % 2)] for i, t in enumerate(_TS)]}},
+           {"D_block": {"@t": [[t, 2] for t in _TS]}, "tol_block": {"@t": [[t, 0.1] for t in _TS[1::2]]}}]
 
 
 def gen_program(rng, quick, dense):
@@ -883,7 +901,7 @@ def run_truncate(ctx, case, refold_queue=None):
         return d
 
     with Recorder(on_diag=on_diag):
-        ret = psi.truncate_(to=to, opts_svd=dict(opts), normalize=nm)
+        ret = psi.truncate_(to=to, opts_svd=opts_of(opts), normalize=nm)
     ret = float(ret)
     v1 = dense_state(psi, ops)
     n1 = float(np.linalg.norm(v1))
@@ -923,6 +941,11 @@ def run_truncate(ctx, case, refold_queue=None):
         # a truncation outside the documented canonical form may project the state to zero (e.g. D_total=1 keeps, bond by
         # bond, charge sectors that do not connect); the property is silent about zero states (they cannot be normalised)
         ctx.count("truncate:unprepared-state-annihilated")
+        return
+    if isinstance(opts.get("D_block"), dict) and not n1 > 1e-9 * n0:
+        # documented: a D_block dictionary gives limit 0 to every sector it does not list; when it lists none of the sectors
+        # of some bond the state is projected to zero, which cannot be normalised (the property is silent about it)
+        ctx.count("truncate:unlisted-sectors-annihilated")
         return
     if nm:
         if not (psi.factor == 1) or abs(n1 - 1) > TOL:
@@ -1019,7 +1042,7 @@ def run_bond(ctx, case):
         return d
 
     with Recorder(on_diag=on_diag):
-        d = float(psi.diagonalize_central_(opts_svd=dict(opts), normalize=nm))
+        d = float(psi.diagonalize_central_(opts_svd=opts_of(opts), normalize=nm))
     cdat = recs[0]
     ctx.count("bond:runs")
     edge = pc[0] < 0 or pc[1] > N - 1
